@@ -88,3 +88,52 @@ pub fn remove_by_swaps<T, A: std::alloc::Allocator>(this: &mut VecDeque<T, A>, i
     }
     this.pop_back()
 }
+
+/// Stub for `VecDeque::insert` (std, not code under test): same observable behaviour expressed
+/// with `push_back` + element swaps instead of a symbolic-length `memmove`.
+pub fn insert_by_swaps<T, A: std::alloc::Allocator>(this: &mut VecDeque<T, A>, index: usize, value: T) {
+    let len = this.len();
+    assert!(index <= len, "index out of bounds");
+    this.push_back(value);
+    let mut k = len;
+    while k > index {
+        this.swap(k - 1, k);
+        k -= 1;
+    }
+}
+
+/// Stub for `std::alloc::realloc` (environment, not code under test): allocate-copy-free with a
+/// word-wise bounded copy loop instead of Kani's C model, whose `memcpy` with a symbolic length
+/// (a `Vec`/`VecDeque` growing under a symbolic path condition) exhausts memory in CBMC.
+/// Bound: at most 32 words (256 bytes) are copied; larger copies trip the VERIF-BOUND assertion.
+pub unsafe fn realloc_nonnull_words(ptr: NonNull<u8>, layout: Layout, new_size: usize) -> *mut u8 {
+    realloc_words(ptr.as_ptr(), layout, new_size)
+}
+
+pub unsafe fn realloc_words(ptr: *mut u8, layout: Layout, new_size: usize) -> *mut u8 {
+    let new = std::alloc::alloc(Layout::from_size_align_unchecked(new_size, layout.align()));
+    let n = if layout.size() < new_size { layout.size() } else { new_size };
+    if n % 8 == 0 && layout.align() >= 8 {
+        assert!(n <= 256, "VERIF-BOUND realloc copy larger than 256 bytes");
+        let src = ptr as *const u64;
+        let dst = new as *mut u64;
+        let mut i = 0;
+        while i < 32 {
+            if i * 8 < n {
+                dst.add(i).write(src.add(i).read());
+            }
+            i += 1;
+        }
+    } else {
+        assert!(n <= 32, "VERIF-BOUND unaligned realloc copy larger than 32 bytes");
+        let mut i = 0;
+        while i < 32 {
+            if i < n {
+                new.add(i).write(ptr.add(i).read());
+            }
+            i += 1;
+        }
+    }
+    std::alloc::dealloc(ptr, layout);
+    new
+}
